@@ -194,6 +194,7 @@ impl BucketStats {
     }
 }
 
+#[cfg_attr(feature = "verif-hooks", derive(Clone))]
 #[derive(Debug)]
 struct PooledProof {
     proof: Proof,
@@ -202,6 +203,7 @@ struct PooledProof {
     admitted_at: Instant,
 }
 
+#[cfg_attr(feature = "verif-hooks", derive(Clone))]
 #[derive(Debug, Default)]
 struct Bucket {
     proofs: Vec<PooledProof>,
@@ -212,6 +214,7 @@ struct Bucket {
 
 /// A bounded pool of admission-verified private-batch proofs, bucketed by
 /// [`BatchKey`].
+#[cfg_attr(feature = "verif-hooks", derive(Clone))]
 #[derive(Debug)]
 pub struct ProofPool {
     /// Canonical-pinned private-batch verifier data used for admission.
@@ -253,6 +256,8 @@ impl ProofPool {
         batch_size: usize,
         limits: PoolLimits,
     ) -> Result<Self> {
+        #[cfg(feature = "verif-hooks")]
+        use crate::verif_hooks::clock::Instant;
         // Bound both counts before the layout helpers below: pi_len does
         // unchecked arithmetic that would wrap on astronomical counts, and the
         // repo invariant is that every externally supplied batch dimension is
@@ -331,6 +336,8 @@ impl ProofPool {
     /// [`Self::snapshot_batch`] clones the oldest `batch_size` proofs at a
     /// time.
     pub fn push(&mut self, proof: Proof) -> Result<BatchKey> {
+        #[cfg(feature = "verif-hooks")]
+        use crate::verif_hooks::clock::Instant;
         if self.len() >= self.limits.max_proofs {
             bail!(
                 "proof pool is full ({} proofs, limit {})",
@@ -374,6 +381,8 @@ impl ProofPool {
         }
         self.verifies_in_window += 1;
 
+        #[cfg(feature = "verif-hooks")]
+        crate::verif_hooks::count_verify();
         self.verifier.verify(proof.clone()).map_err(|e| {
             anyhow!(
                 "refusing to queue invalid private-batch proof: verification failed: {}",
@@ -505,6 +514,8 @@ impl ProofPool {
     /// dropped, not returned — past the acceptance window they are
     /// unsettleable on ANY chain, so there is no last-copy value to preserve.
     pub fn evict_older_than(&mut self, max_age: Duration) -> usize {
+        #[cfg(feature = "verif-hooks")]
+        use crate::verif_hooks::clock::Instant;
         let now = Instant::now();
         let mut evicted = 0;
         let nullifier_index = &mut self.nullifier_index;
@@ -526,6 +537,8 @@ impl ProofPool {
 
     /// Per-bucket statistics for the operator's aggregation policy.
     pub fn bucket_stats(&self) -> Vec<BucketStats> {
+        #[cfg(feature = "verif-hooks")]
+        use crate::verif_hooks::clock::Instant;
         let now = Instant::now();
         self.buckets
             .iter()
@@ -569,6 +582,8 @@ impl ProofPool {
     /// two policy workers racing on the same key see each other's snapshot
     /// mark instead of both launching a duplicate ~tens-of-seconds prove.
     pub fn snapshot_batch(&mut self, key: &BatchKey) -> Option<Vec<Proof>> {
+        #[cfg(feature = "verif-hooks")]
+        use crate::verif_hooks::clock::Instant;
         let bucket = self.buckets.get_mut(key)?;
         let n = bucket.proofs.len().min(self.batch_size);
         bucket.last_snapshot_at = Some(Instant::now());
@@ -640,6 +655,52 @@ impl ProofPool {
             .fold(0u64, |acc, sum| acc.saturating_add(sum));
 
         Ok((key, nullifiers, volume))
+    }
+}
+
+/// Verification hook: read-only copy of the pool's private state.
+#[cfg(feature = "verif-hooks")]
+#[derive(Debug, Clone)]
+pub struct VerifPoolView {
+    /// (key, [(public inputs, nullifiers, volume, admitted_at)], last_snapshot_at)
+    #[allow(clippy::type_complexity)]
+    pub buckets: Vec<(BatchKey, Vec<(Vec<u64>, Vec<BytesDigest>, u64, Instant)>, Option<Instant>)>,
+    pub nullifier_index: Vec<(BytesDigest, BatchKey)>,
+    pub verify_window_started: Instant,
+    pub verifies_in_window: usize,
+}
+
+#[cfg(feature = "verif-hooks")]
+impl ProofPool {
+    pub fn verif_view(&self) -> VerifPoolView {
+        let mut nullifier_index: Vec<_> = self.nullifier_index.iter().map(|(n, k)| (*n, *k)).collect();
+        nullifier_index.sort();
+        VerifPoolView {
+            buckets: self
+                .buckets
+                .iter()
+                .map(|(k, b)| {
+                    (
+                        *k,
+                        b.proofs
+                            .iter()
+                            .map(|q| {
+                                (
+                                    q.proof.public_inputs.iter().map(|f| f.to_canonical_u64()).collect(),
+                                    q.nullifiers.clone(),
+                                    q.volume,
+                                    q.admitted_at,
+                                )
+                            })
+                            .collect(),
+                        b.last_snapshot_at,
+                    )
+                })
+                .collect(),
+            nullifier_index,
+            verify_window_started: self.verify_window_started,
+            verifies_in_window: self.verifies_in_window,
+        }
     }
 }
 
